@@ -6,13 +6,25 @@ def Ty.composite : Ty → Bool
   | .slice _ | .array _ _ | .map _ _ => true
   | _ => false
 
+/-- descriptors that insist on ending the fold: slices and maps (and arrays of them) -/
+def Ty.closed : Ty → Bool
+  | .slice _ | .map _ _ => true
+  | .array _ t => t.closed
+  | _ => false
+
+theorem Ty.closed_of_comparable : (t : Ty) → t.comparable = true → t.closed = false
+  | .array _ t, h => by simp only [Ty.comparable] at h; simpa [Ty.closed] using Ty.closed_of_comparable t h
+  | .slice _, h | .map _ _, h | .bin, h | .marsh _ _, h => by simp [Ty.comparable] at h
+  | .bool, _ | .num _, _ | .str, _ | .atom, _ | .idr _, _ | .idn _, _ | .time, _ | .error, _ | .any, _
+  | .named _ _, _ | .struct _ _, _ => by simp [Ty.closed]
+
 def RegOK (o : Opts) (nm : Bytes) (t : Ty) : Prop := o.reg nm = some t ∧ nm.length ≤ 4095
 
 /-- the descriptor of the type unfolds back to the type -/
 def DescOK (o : Opts) : Ty → Prop
   | .slice t => DescOK o t
   | .array n t => n < 4294967296 ∧ ¬ (t.size > 0 ∧ n * t.size ≥ uintptrLimit) ∧ DescOK o t
-  | .map k v => k.composite = false ∧ k.comparable = true ∧ DescOK o k ∧ DescOK o v
+  | .map k v => k.comparable = true ∧ DescOK o k ∧ DescOK o v
   | .named nm t => RegOK o nm (.named nm t)
   | .struct nm fs => RegOK o nm (.struct nm fs)
   | .marsh nm sz => RegOK o nm (.marsh nm sz)
@@ -52,18 +64,20 @@ theorem tagTy_leaf (t : Ty) (tag : UInt8) (h : t.leafTag = some tag) :
   all_goals decide
 
 theorem decTy_leaf (o : Opts) (t : Ty) (tag : UInt8) (h : t.leafTag = some tag) (f : Bytes) (fuel : Nat) (hf : t.ddepth ≤ fuel) :
-    decTy o fuel (encTy o t ++ f) = .ok (t, if t.composite then [] else f) := by
+    decTy o fuel (encTy o t ++ f) = .ok (t, if t.closed then [] else f) := by
   obtain ⟨h1, h2, h3, h4, h5, _⟩ := tagTy_leaf t tag h
   have hd : t.ddepth = 1 := by cases t <;> simp [Ty.leafTag] at h <;> rfl
-  have hc : t.composite = false := by cases t <;> simp [Ty.leafTag] at h <;> rfl
+  have hc : t.closed = false := by cases t <;> simp [Ty.leafTag] at h <;> rfl
   have he : encTy o t = [tag] := by cases t <;> simp [Ty.leafTag] at h <;> simp [encTy, h]
   cases fuel with
   | zero => omega
   | succ n => simp [he, decTy, hc, h1, h2, h3, h4, h5]
 
+/-- unfolding the descriptor of a type gives the type back and returns what follows it (nothing may follow a
+    closed descriptor) -/
 theorem decTy_encTy (o : Opts) (hc : CachesConsistent o) (t : Ty) (f : Bytes) (fuel : Nat)
-    (hd : DescOK o t) (hf : t.ddepth ≤ fuel) (hcf : t.composite = true → f = []) :
-    decTy o fuel (encTy o t ++ f) = .ok (t, if t.composite then [] else f) := by
+    (hd : DescOK o t) (hf : t.ddepth ≤ fuel) (hcf : t.closed = true → f = []) :
+    decTy o fuel (encTy o t ++ f) = .ok (t, if t.closed then [] else f) := by
   match t, hd, hf, hcf with
   | .slice t, hd, hf, hcf =>
     have ih := fun f fuel => decTy_encTy o hc t f fuel
@@ -78,26 +92,25 @@ theorem decTy_encTy (o : Opts) (hc : CachesConsistent o) (t : Ty) (f : Bytes) (f
       simp only [decTy]
       have e1 : edtSlice ≠ edtMap := by decide
       simp only [e1, ↓reduceIte, h]
-      cases t.composite <;> simp [Ty.composite]
+      cases t.closed <;> simp [Ty.closed]
   | .array k t, hd, hf, hcf =>
     have ih := fun f fuel => decTy_encTy o hc t f fuel
     cases fuel with
     | zero => simp [Ty.ddepth] at hf
     | succ n =>
-      have := hcf rfl; subst this
       simp only [Ty.ddepth] at hf
       obtain ⟨hk, hs, hd⟩ := hd
-      have h := ih [] n hd (by omega) (by simp)
-      simp only [encTy, List.append_nil, List.cons_append] at h ⊢
+      have h := ih f n hd (by omega) (by simpa [Ty.closed] using hcf)
+      simp only [encTy, List.cons_append, List.append_assoc] at h ⊢
       simp only [decTy]
       have e1 : edtArray ≠ edtMap := by decide
       have e2 : edtArray ≠ edtSlice := by decide
-      have hne : ¬ (be32 k ++ encTy o t).length < 5 := by
+      have hne : ¬ (be32 k ++ (encTy o t ++ f)).length < 5 := by
         have : (encTy o t).length ≥ 1 := by
           cases t <;> simp [encTy, regPrefix] <;> (try split) <;> simp
         simp; omega
-      simp only [e1, e2, ↓reduceIte, lenLt_eq, decide_eq_true_eq, hne, rd32_be32 _ hk, h]
-      cases t.composite <;> simp [Ty.composite, hs]
+      simp only [e1, e2, ↓reduceIte, lenLt_eq, decide_eq_true_eq, hne, rd32_be32 _ hk, h, hs, Ty.closed]
+      try rfl
   | .map k v, hd, hf, hcf =>
     have ihk := fun f fuel => decTy_encTy o hc k f fuel
     have ihv := fun f fuel => decTy_encTy o hc v f fuel
@@ -106,12 +119,13 @@ theorem decTy_encTy (o : Opts) (hc : CachesConsistent o) (t : Ty) (f : Bytes) (f
     | succ n =>
       have := hcf rfl; subst this
       simp only [Ty.ddepth] at hf
-      obtain ⟨hkc, hcmp, hdk, hdv⟩ := hd
+      obtain ⟨hcmp, hdk, hdv⟩ := hd
+      have hkc := Ty.closed_of_comparable k hcmp
       have hk := ihk (encTy o v) n hdk (by omega) (by simp [hkc])
       have hv := ihv [] n hdv (by omega) (by simp)
-      simp only [encTy, List.append_nil, List.cons_append] at hk hv ⊢
+      simp only [encTy, List.append_nil, List.cons_append, List.append_assoc] at hk hv ⊢
       simp only [decTy, ↓reduceIte, hk, hkc, Bool.false_eq_true, hv]
-      cases v.composite <;> simp [Ty.composite, hcmp]
+      cases v.closed <;> simp [Ty.closed, hcmp]
   | .named nm t, hd, hf, hcf =>
     cases fuel with
     | zero => simp [Ty.ddepth] at hf
@@ -121,7 +135,7 @@ theorem decTy_encTy (o : Opts) (hc : CachesConsistent o) (t : Ty) (f : Bytes) (f
       have e1 : edtReg ≠ edtMap := by decide
       have e2 : edtReg ≠ edtSlice := by decide
       have e3 : edtReg ≠ edtArray := by decide
-      simp [e1, e2, e3, h2, Ty.composite]
+      simp [e1, e2, e3, h2, Ty.closed]
   | .struct nm fs, hd, hf, hcf =>
     cases fuel with
     | zero => simp [Ty.ddepth] at hf
@@ -131,7 +145,7 @@ theorem decTy_encTy (o : Opts) (hc : CachesConsistent o) (t : Ty) (f : Bytes) (f
       have e1 : edtReg ≠ edtMap := by decide
       have e2 : edtReg ≠ edtSlice := by decide
       have e3 : edtReg ≠ edtArray := by decide
-      simp [e1, e2, e3, h2, Ty.composite]
+      simp [e1, e2, e3, h2, Ty.closed]
   | .marsh nm sz, hd, hf, hcf =>
     cases fuel with
     | zero => simp [Ty.ddepth] at hf
@@ -141,7 +155,7 @@ theorem decTy_encTy (o : Opts) (hc : CachesConsistent o) (t : Ty) (f : Bytes) (f
       have e1 : edtReg ≠ edtMap := by decide
       have e2 : edtReg ≠ edtSlice := by decide
       have e3 : edtReg ≠ edtArray := by decide
-      simp [e1, e2, e3, h2, Ty.composite]
+      simp [e1, e2, e3, h2, Ty.closed]
   | .any, hd, hf, hcf =>
     cases fuel with
     | zero => simp [Ty.ddepth] at hf
@@ -151,7 +165,7 @@ theorem decTy_encTy (o : Opts) (hc : CachesConsistent o) (t : Ty) (f : Bytes) (f
       have e2 : edtAny ≠ edtSlice := by decide
       have e3 : edtAny ≠ edtArray := by decide
       have e4 : edtAny ≠ edtReg := by decide
-      simp [encTy, decTy, Ty.composite, h1, e1, e2, e3, e4]
+      simp [encTy, decTy, Ty.closed, h1, e1, e2, e3, e4]
   | .bool, _, hf, _ => exact decTy_leaf o _ _ rfl f fuel hf
   | .str, _, hf, _ => exact decTy_leaf o _ _ rfl f fuel hf
   | .bin, _, hf, _ => exact decTy_leaf o _ _ rfl f fuel hf
